@@ -37,6 +37,7 @@ import GraphiqModel.Proofs.MetricsHistCheck
 import GraphiqModel.Proofs.MetricsHistLongest
 import GraphiqModel.Proofs.MetricsHistChain
 import GraphiqModel.Proofs.MetricsHistIso
+import GraphiqModel.Proofs.MetricsHistEdits
 import GraphiqModel.Properties.C12
 namespace Graphiq.C18
 open Graphiq Graphiq.Dag Graphiq.Metrics
@@ -382,6 +383,83 @@ theorem metrics_eq_spec_of_wires {c : Dag} {P : Reg → List NodeId} (g : Good c
 /-- the canonical schedule is a schedule (so the list above is a topological order of the circuit's operations) -/
 theorem canonical_schedule_is_schedule {c : Dag} {P : Reg → List NodeId} (g : Good c P) : Sched c P (compSched c) :=
   compSched_sched g
+
+/-! ### the edits act on the specification's operation list as list edits
+
+  append (`add`), erase (`remove_op`), replace in place (`replace_op`), flatMap-unwrap (`unwrap_nodes`), filter (`remove_identity`):
+  for each, all metrics of the circuit after the edit equal the specifications on the edited operation list of ANY schedule of the
+  circuit before.  (`insert_at` inserts the operation at a position compatible with the chosen edges, and `group_one_qubit_gates`
+  fuses runs per wire — C12 §7; for those two the operation list after the edit is that of any schedule of the result.) -/
+
+/-- plainness of the circuit from plainness of the scheduled operations -/
+theorem allPlain_of_schedule {c : Dag} {P : Reg → List NodeId} {L : List (NodeId × Op)} (hS : Sched c P L)
+    (h : ∀ o ∈ L.map (·.2), PlainOp' o) : AllPlain c := by
+  intro i o hm
+  exact plainOp'_of_wiredOp (h _ (List.mem_map.mpr ⟨_, hS.mem_of_node hm, rfl⟩))
+
+/-- **`add(op)` = append**: when the call succeeds, all metrics afterwards equal the specifications on `ops ++ [op]` -/
+theorem metrics_after_add {c : Dag} {P : Reg → List NodeId} {L : List (NodeId × Op)} (g : Good c P) (hpl : AllPlain c)
+    (hS : Sched c P L) {op : Op} (hop : OpWF op) (hp : PlainOp' op) (hok : (c.add op).2 = none) :
+    MetricsMeetSpec (c.add op).1 (L.map (·.2) ++ [op]) := by
+  obtain ⟨P', g', hS'⟩ := add_sched_gen g hS hop hok
+  have hpl' : AllPlain (c.add op).1 := by
+    apply allPlain_of_schedule hS'
+    intro o ho
+    rw [List.map_append] at ho
+    rcases List.mem_append.mp ho with ho | ho
+    · exact (hS.wf_plain g hpl o ho).2
+    · simp at ho; rw [ho]; exact hp
+  have := metrics_eq_spec_on_any_schedule g' hpl' hS'
+  simpa using this
+
+/-- **`remove_op(node)` = erase**: the node's entry is removed from the operation list -/
+theorem metrics_after_remove_op {c : Dag} {P : Reg → List NodeId} {L : List (NodeId × Op)} (g : Good c P) (hpl : AllPlain c)
+    (hS : Sched c P L) {i : Nat} {w : Op} (hw : (NodeId.op i, w) ∈ c.nodes) :
+    ∃ L1 L2, L = L1 ++ (NodeId.op i, wiredOp P (.op i) w) :: L2 ∧
+      MetricsMeetSpec (c.removeOp (.op i)).1 (L1.map (·.2) ++ L2.map (·.2)) := by
+  obtain ⟨L1, L2, hL, g', hS'⟩ := removeOp_sched_gen g hS hw
+  refine ⟨L1, L2, hL, ?_⟩
+  have hpl' : AllPlain (c.removeOp (.op i)).1 := by
+    apply allPlain_of_schedule hS'
+    intro o ho
+    apply (hS.wf_plain g hpl o _).2
+    rw [hL]
+    rw [List.map_append] at ho ⊢
+    rcases List.mem_append.mp ho with ho | ho
+    · exact List.mem_append.mpr (Or.inl ho)
+    · exact List.mem_append.mpr (Or.inr (List.mem_cons_of_mem _ ho))
+  have := metrics_eq_spec_on_any_schedule g' hpl' hS'
+  simpa using this
+
+/-- **`replace_op(node, new)` = replace in place** (successful call: same quantum and classical registers): the entry of the node
+    now holds `new` as wired, everything else is unchanged -/
+theorem metrics_after_replace_op {c : Dag} {P : Reg → List NodeId} {L : List (NodeId × Op)} (g : Good c P) (hpl : AllPlain c)
+    (hS : Sched c P L) {i : Nat} {old new : Op} (hold : (NodeId.op i, old) ∈ c.nodes) (hnew : OpWF new) (hp : PlainOp' new)
+    (hq : old.qregs = new.qregs) (hc : old.cregs = new.cregs) :
+    (c.replaceOp (.op i) new).2 = none ∧
+    MetricsMeetSpec (c.replaceOp (.op i) new).1
+      (L.map (fun p => if p.1 = NodeId.op i then wiredOp P (.op i) new else p.2)) := by
+  have heq := replaceOp_eq ((opOf_eq_some g.inv.ids_nodup).mpr hold) hq hc
+  rw [heq]
+  refine ⟨rfl, ?_⟩
+  obtain ⟨g', hS'⟩ := replaceOp_sched_gen g hS hold hnew hq hc
+  have hmap : (L.map (fun p => if p.1 = NodeId.op i then (NodeId.op i, wiredOp P (.op i) new) else p)).map (·.2) =
+      L.map (fun p => if p.1 = NodeId.op i then wiredOp P (.op i) new else p.2) := by
+    rw [List.map_map]
+    apply List.map_congr_left
+    intro p _
+    simp only [Function.comp]
+    by_cases h : p.1 = NodeId.op i <;> simp [h]
+  have hpl' : AllPlain (c.replaced (.op i) old new) := by
+    apply allPlain_of_schedule hS'
+    intro o ho
+    rw [hmap] at ho
+    obtain ⟨p, hpL, rfl⟩ := List.mem_map.mp ho
+    by_cases h : p.1 = NodeId.op i
+    · rw [if_pos h]; exact plainOp'_wiredOp hp
+    · rw [if_neg h]; exact (hS.wf_plain g hpl p.2 (List.mem_map.mpr ⟨p, hpL, rfl⟩)).2
+  have := metrics_eq_spec_on_any_schedule g' hpl' hS'
+  rwa [hmap] at this
 
 /-! ### the rewrites act on the specification's operation list -/
 
